@@ -4,6 +4,7 @@ import (
 	"bytes"
 	"errors"
 	"fmt"
+	"time"
 	"unsafe"
 )
 
@@ -39,6 +40,9 @@ type SimSink struct {
 	MustProgress bool // a write that reports no error takes at least one byte (beneath bufio, which would spin)
 	FailFrom     int  // from this Write call index on every write fails ("disk full"); 0 = never
 	FailErr      error
+	// Delay: every Write and Sync takes this long (time of the bubble's clock:
+	// the caller sleeps inside the device, nothing else is different)
+	Delay time.Duration
 
 	Data      []byte
 	Calls     []SinkCall
@@ -99,6 +103,10 @@ func (s *SimSink) Write(p []byte) (int, error) {
 	s.inFlight++
 	if s.inFlight > 1 {
 		s.R.Fail("sink saw overlapping calls", fmt.Sprintf("sink %s: Write by %s began while another call was in progress", s.Name, call.Task))
+	}
+	if s.Delay > 0 {
+		time.Sleep(s.Delay)
+		s.Fired["slow-call"]++
 	}
 	snap := append([]byte(nil), p...)
 	var out Outcome
@@ -192,6 +200,10 @@ func (s *SimSink) Sync() error {
 	s.inFlight++
 	if s.inFlight > 1 {
 		s.R.Fail("sink saw overlapping calls", fmt.Sprintf("sink %s: Sync by %s began while another call was in progress", s.Name, call.Task))
+	}
+	if s.Delay > 0 {
+		time.Sleep(s.Delay)
+		s.Fired["slow-call"]++
 	}
 	var err error
 	if idx < len(s.SyncPlan) {
